@@ -100,8 +100,9 @@ impl FixtureDatabase {
 
         // Use WalkDir with filter to skip large/irrelevant directories
         let walker = WalkDir::new(root_path).into_iter().filter_entry(|entry| {
-            // Allow files to pass through
-            if entry.file_type().is_file() {
+            // Allow files to pass through; the root itself is never skipped,
+            // whatever it is called
+            if entry.file_type().is_file() || entry.depth() == 0 {
                 return true;
             }
             // For directories, check if we should skip them
@@ -135,7 +136,10 @@ impl FixtureDatabase {
             let path = entry.path();
 
             // Skip files in filtered directories (shouldn't happen with filter_entry, but just in case)
-            if path.components().any(|c| {
+            // Only components below the root count: the workspace may itself live under a
+            // directory with an ignored name (e.g. ~/build/project).
+            let below_root = path.strip_prefix(root_path).unwrap_or(path);
+            if below_root.components().any(|c| {
                 c.as_os_str()
                     .to_str()
                     .is_some_and(Self::should_skip_directory)
